@@ -2,6 +2,7 @@
   C14 — Hover and signature help tell the truth about declarations.  Property theorems only.
 -/
 import SplVerif.Model.Features
+import SplVerif.Lemmas.ScopeExact
 
 namespace Spl.C14
 open Spl.Feat
@@ -35,5 +36,72 @@ theorem active_go_stops (idx : Nat) (t : Token) (rest : List Token) (k : Nat) (h
 /-- Signatures: reference marker, name, fully resolved type; procedures list their parameters. -/
 example : varEntryStr ⟨⟨"a".toList, ⟨⟨0, 1⟩, []⟩⟩, true, some (.array (some 3) .int "t".toList), ⟨0, 0⟩, none⟩
     = "ref a: array [3] of int".toList := by decide
+
+section
+open Spl Spl.Feat Spl.Typing Spl.TypingSound Spl.ScopeExact
+
+/-- how a resolved type of the typing specification is rendered: the structural embedding of the specification's
+    types into the implementation's (`conv`: `int`, `boolean`, `array [n] of <element>` with its creator), printed by
+    the model of `Display for DataType` -/
+def tyStr (t : Ty) : List Char := dataTypeStr (conv t)
+
+/-- **Hover tells the truth about types and about the types of variables and parameters.**  For every program the typing
+    specification accepts, with the table `build` returns: the entry found under a declared type name renders as that
+    type FULLY RESOLVED by the specification (aliases followed to `int` / `array [n] of …`), and every entry of a
+    procedure's local table — found under the name of one of its parameters or variables, in declaration order —
+    carries the resolved type of that parameter or variable. -/
+theorem hover_types_truthful (p : Program) (h : wellTyped p = true) :
+    ∃ table g, build p = .ok (p, table) ∧ declare predefined p.decls = some g ∧
+      (∀ n t, g.find n = some (.type n t) →
+        ∃ te, tblLookup table n = some (.type te) ∧ entryStr (.type te) = tyStr t) ∧
+      (∀ n sig, g.find n = some (.proc sig) → (predefined.find n).isSome = false →
+        ∃ pe, tblLookup table n = some (.procedure pe) ∧
+          pe.localTable.map (fun kv => (kv.1, optTypeStr kv.2.entry.dataType)) =
+            (sig.params ++ sig.locals).map (fun v => (v.name, tyStr v.ty))) := by
+  obtain ⟨g, tf, hd, hc, hb⟩ := build_corr p h
+  refine ⟨tf, g, hb, hd, ?_, ?_⟩
+  · intro n t hf
+    rcases corr_find hc n with ⟨a, _, _⟩ | ⟨e, v, a, b, c⟩
+    · rw [a] at hf; cases hf
+    · rw [a] at hf
+      cases hf
+      cases v with
+      | procedure pe => simp [EntRel] at c
+      | type te =>
+        refine ⟨te, b, ?_⟩
+        have : te.dataType = some (conv t) := c.2
+        simp only [entryStr, optTypeStr, this, tyStr]
+  · intro n sig hf hnp
+    rcases corr_find hc n with ⟨a, _, _⟩ | ⟨e, v, a, b, c⟩
+    · rw [a] at hf; cases hf
+    · rw [a] at hf
+      cases hf
+      cases v with
+      | type te => simp [EntRel] at c
+      | procedure pe =>
+        obtain ⟨_, _, hl⟩ := c
+        rcases hl with hl | hl
+        · rw [hnp] at hl; cases hl
+        · refine ⟨pe, b, ?_⟩
+          have key : ∀ (vs : List VarInfo) (l : LocalTable), LocalRel vs l →
+              l.map (fun kv => (kv.1, optTypeStr kv.2.entry.dataType)) = vs.map (fun v => (v.name, tyStr v.ty)) := by
+            intro vs
+            induction vs with
+            | nil => intro l hl; cases l with
+              | nil => rfl
+              | cons x xs => simp [LocalRel] at hl
+            | cons v vs ih =>
+              intro l hl
+              cases l with
+              | nil => simp [LocalRel] at hl
+              | cons x xs =>
+                obtain ⟨k, e⟩ := x
+                obtain ⟨h1, h2, h3⟩ := hl
+                have h4 : optTypeStr (some (conv v.ty)) = tyStr v.ty := by simp only [optTypeStr, tyStr]
+                rw [List.map_cons, List.map_cons, ih xs h3]
+                simp only [h1, h2, h4]
+          exact key _ _ hl
+
+end
 
 end Spl.C14
